@@ -352,4 +352,22 @@ class SdoClient {
   }
 };
 
+// one junk SDO frame: a command byte from the whole alphabet (weighted to the meaningful patterns and their reserved-bit
+// variants), a multiplexer from the given list (or garbage), plausible or random data
+inline Frame sdo_junk(Ctx &c, uint32_t req_id, const std::vector<std::pair<uint16_t, uint8_t>> &mux) {
+  static const uint8_t ALPHA[] = {0x20, 0x21, 0x22, 0x23, 0x2F, 0x2B, 0x27, 0x40, 0x00, 0x10, 0x01, 0x11, 0x03, 0x13, 0x0D, 0x1D, 0x60, 0x70, 0xC0, 0xC2, 0xC4, 0xC6, 0xC1, 0xC5, 0xDD,
+                                  0xA0, 0xA4, 0xA3, 0xA2, 0xA1, 0x81, 0x01, 0x02, 0x7F, 0xFF, 0x05, 0x85, 0xE0, 0x41, 0x61, 0x82, 0x83, 0xFE, 0x7E};
+  Frame f; f.id = req_id; f.dlc = 8;
+  f.d[0] = c.t.chance(32) ? c.t.byte() : ALPHA[c.t.below(sizeof ALPHA)];
+  if (c.t.chance(200) && !mux.empty()) { auto m = mux[c.t.below((uint32_t)mux.size())]; f.d[1] = (uint8_t)m.first; f.d[2] = (uint8_t)(m.first >> 8); f.d[3] = m.second; }
+  else { f.d[1] = c.t.byte(); f.d[2] = c.t.byte(); f.d[3] = c.t.byte(); }
+  uint32_t how = c.t.below(4);
+  if (how == 0) { f.d[4] = f.d[5] = f.d[6] = f.d[7] = 0; }
+  else if (how == 1) { static const uint16_t SZ[10] = {0, 1, 2, 4, 5, 7, 8, 127, 128, 889}; uint16_t z = SZ[c.t.below(10)]; f.d[4] = (uint8_t)z; f.d[5] = (uint8_t)(z >> 8); }
+  else if (how == 2) { f.d[4] = c.t.byte(); }
+  else for (int i = 4; i < 8; i++) f.d[i] = c.t.byte();
+  if (c.t.chance(10)) f.dlc = (uint8_t)c.t.below(9);
+  return f;
+}
+
 }  // namespace vf
